@@ -31,7 +31,7 @@ def gen_scenario(seed, tier="quick", opts=None):
         tree, member = rng.choice([("t/", "t/x.txt"), ("u/", "u/a.txt"), ("t/sub/", "t/sub/z.txt")])
         sc["plans"][k][:0] = [["ignore_errors", [["static", tree]]], ["ignore_errors", [["amend", {"inp": [member]}]]]]
         sc["faults"] = [f for f in sc["faults"] if f["kind"] != "client_death"]
-        sc["faults"].append({"kind": "client_death", "plan": k, "after_sends": 2})
+        sc["faults"].append({"kind": "client_death", "plan": k, "after_sends": 2, "goodbye": rng.random() < 0.5})
         sc["schedule"]["profile"] = {"hash.slow": [500]}
     sc["check"] = PROPERTY
     return sc
